@@ -260,6 +260,11 @@ def plan_generate(ctx, rnd, cid0):
               {"what": "dsa-domain", "bits": 1024, "kid": "d1024", "corr": [rnd.choice(["g=1", "g=p-1", "g+p"])]},
               {"what": "dsa-domain", "bits": 1024, "kid": "d1024", "corr": [rnd.choice(["q:=other prime", "q:=2q", "p+2q", "p composite,consistent"])]},
               {"what": "dsa-domain", "bits": 1024, "kid": "d1024", "corr": [rnd.choice(["p=0", "q=0"])]}]
+        # boundary entropy: the first octets the key-pair sampler reads are order - 1 / order / all ones / zeros
+        g += [{"what": "dsa-domain", "bits": 1024, "kid": "d1024", "corr": [], "tape": "order-1"},
+              {"what": "dsa-domain", "bits": 1024, "kid": rnd.choice(["d1024", "d512"]), "corr": [], "tape": rnd.choice(["order", "order-2", "ones", "zeros", "one"])},
+              {"what": "ecc", "curve": rnd.choice(["P-192", "P-224", "P-256"]), "tape": "order-1"},
+              {"what": "ecc", "curve": rnd.choice(["P-192", "P-224", "P-256"]), "tape": rnd.choice(["order", "ones", "zeros", "one", "order-2"])}]
         g += [{"what": "elgamal", "bits": rnd.choice([161, 168, 176, 184, 192])}]
         curves = [rnd.choice(["P-192", "P-224"]), "P-256", "P-521" if ctx.seed % 4 == 1 else "P-384", "Ed25519", "Curve25519"]
         if ctx.seed % 3 == 0:                                   # the two long chains (30 s / 20 s of TLC) in one run out of three
@@ -276,6 +281,8 @@ def plan_generate(ctx, rnd, cid0):
               {"what": "dsa-domain", "bits": 512, "kid": "d512", "corr": []}, {"what": "dsa-domain", "bits": 2048, "kid": "d1024", "corr": []},
               {"what": "dsa-domain", "bits": 1024, "kid": "toy", "corr": []}]
         g += [{"what": "dsa-domain", "bits": 1024, "kid": "d1024", "corr": [c]} for c in ("g=1", "g=p-1", "g+p", "q:=other prime", "q:=2q", "p+2q", "p=0", "q=0", "p composite,consistent")]
+        g += [{"what": "dsa-domain", "bits": 1024, "kid": kid, "corr": [], "tape": tp} for kid in ("d1024", "d512") for tp in ("order-1", "order", "order-2", "ones", "zeros", "one")]
+        g += [{"what": "ecc", "curve": c, "tape": tp} for c in ("P-192", "P-256", "P-384") for tp in ("order-1", "order", "order-2", "ones", "zeros", "one")]
         g += [{"what": "elgamal", "bits": b} for b in (rnd.choice([161, 176, 192]), 256, rnd.choice([224, 320, 384]))]
         for c in NIST + ["Ed25519", "Ed448", "Curve25519", "Curve448"]:
             g += [{"what": "ecc", "curve": c} for _ in range(1 if c in ("P-521", "Ed448", "Curve448") else 3)]
